@@ -16,7 +16,10 @@
 
    Not modelled, entering as oracle arguments (filled by the harness from the real functions):
      [ctxmap]    MigrateContextReference(name, rawDates)   (context.go: ~60 regular expressions)
-     the template scanner excellent.NewXScanner (property C12): templates are given as its token list.
+     the template scanner excellent.NewXScanner (property C12): templates are given as its token list;
+     separateFrom (present iff gen/LegacyTable.v separates_identifiers) re-scans a migrated identifier together with
+     the text that follows it: that call is the scanner model of C12, model/ExScanner.v [scan], with
+     unicode.IsLetter||IsNumber [isln] and unicode.ToLower [lower_rune] as parameters.
    The legacy ANTLR parser is re-implemented in LegacySyntax.v (parse1).
 
    visitor.go precedenceOf / asOperand (added by the fix "legacy expression migration parenthesizes operands
@@ -30,6 +33,7 @@ From Coq Require Import List NArith ZArith Bool.
 From Coq Require String.
 Import String.StringSyntax.
 From Verif Require Import model.LegacyTy gen.LegacyTable model.LegacySyntax lib.Quote.
+From Verif Require model.ExScanner.
 Import ListNotations.
 Open Scope N_scope.
 
@@ -412,6 +416,8 @@ Section Visitor.
   Variable default_to_self : bool.     (* options.DefaultToSelf *)
   Variable url_encode : bool.          (* options.URLEncode *)
   Variable printable : N -> bool.      (* unicode.IsPrint, used by strconv.Quote *)
+  Variable isln : N -> bool.           (* unicode.IsLetter(ch) || unicode.IsNumber(ch), used by the template scanner *)
+  Variable lower_rune : N -> N.        (* unicode.ToLower, used by the template scanner *)
 
   (* identifierRegex ^\pL+[\pL\pN_.]*$ and the top-level test of isValidIdentifier.
      \pL and \pN are approximated by the grammar's UnicodeLetter / UnicodeDigit classes *)
@@ -434,6 +440,22 @@ Section Visitor.
     let e3 := if is_valid_identifier e2 then e2 else 40 :: e2 ++ [41] in
     64 :: e3.
 
+  (* separateFrom: NewXScanner(wrapped + following, RunContextTopLevels).Scan() must give back the identifier *)
+  Definition separate_from (wrapped following : text) : text :=
+    if negb separates_identifiers then wrapped
+    else
+      match following with
+      | [] => wrapped
+      | _ =>
+          if is_prefix [64; 40] wrapped then wrapped
+          else
+            match ExScanner.scan isln lower_rune (Some run_top_levels) true (ExScanner.new_input (wrapped ++ following)) with
+            | ExScanner.Ok (ExScanner.IDENTIFIER, tok, _) =>
+                if text_eqb tok (tl wrapped) then wrapped else 64 :: 40 :: tl wrapped ++ [41]
+            | _ => 64 :: 40 :: tl wrapped ++ [41]
+            end
+      end.
+
   (* tokens of excellent.NewXScanner(template, ContextTopLevels) with SetUnescapeBody(false) *)
   Inductive seg :=
   | SBody (t : text)
@@ -442,19 +464,26 @@ Section Visitor.
 
   Definition t_empty_literal : text := [34; 34].
 
-  (* one iteration of the loop of migrateLegacyTemplateAsString: text written to buf, error recorded? *)
-  Definition migrate_seg (s : seg) : text * bool :=
+  (* one iteration of the loop of migrateLegacyTemplateAsString: text written to buf, error recorded?
+     [following] is the text of the next token when that is a body token, else empty *)
+  Definition migrate_seg (s : seg) (following : text) : text * bool :=
     match s with
     | SBody t => (t, false)
     | SIdent t =>
-        (wrap_raw (ctxmap t) (if default_to_self then 64 :: t else []), false)
+        (separate_from (wrap_raw (ctxmap t) (if default_to_self then 64 :: t else [])) following, false)
     | SExpr t =>
         if text_eqb t t_empty_literal then ([], false)
         else
           match migrate_expression t with
           | None => (64 :: 40 :: t ++ [41], true)
-          | Some v => (wrap_raw v (if default_to_self then 64 :: 40 :: t ++ [41] else []), false)
+          | Some v => (separate_from (wrap_raw v (if default_to_self then 64 :: 40 :: t ++ [41] else [])) following, false)
           end
+    end.
+
+  Definition following_of (rest : list seg) : text :=
+    match rest with
+    | SBody t :: _ => t
+    | _ => []
     end.
 
   (* MigrateTemplate: output and whether an error is returned *)
@@ -462,7 +491,7 @@ Section Visitor.
     match segs with
     | [] => ([], false)
     | s :: r =>
-        let (o, e) := migrate_seg s in
+        let (o, e) := migrate_seg s (following_of r) in
         let (o', e') := migrate_template r in
         (o ++ o', e || e')
     end.
